@@ -180,6 +180,13 @@ fn dump(db: &GrafeoDB, max_node: u64, max_edge: u64) -> Vec<String> {
             labels.sort();
             let props: Vec<String> = n.properties.iter().map(|(k, v)| format!("{}={}", k.as_str(), show(v))).collect();
             out.push(format!("N{id}{labels:?}{props:?}"));
+            // adjacency in both directions is part of "observably equal" (incoming lists come from a separate index)
+            let mut o: Vec<(u64, u64)> = s.get_neighbors_outgoing(NodeId::new(id)).iter().map(|(n, e)| (n.as_u64(), e.as_u64())).collect();
+            o.sort();
+            let mut i: Vec<(u64, u64)> = s.get_neighbors_incoming(NodeId::new(id)).iter().map(|(n, e)| (n.as_u64(), e.as_u64())).collect();
+            i.sort();
+            let (dout, din) = s.get_degree(NodeId::new(id));
+            out.push(format!("A{id}:out{o:?}:in{i:?}:deg{dout}/{din}"));
         }
     }
     for id in 0..max_edge + 2 {
@@ -285,14 +292,14 @@ fn check_history(hist: &[usize], scratch: &std::path::Path, idx: usize, disk: bo
                         // identifiers handed out by the copy must be fresh and must not disturb existing entities
                         let nid = copy.create_node(&["FRESH"]);
                         let d2 = dump(&copy, mn.max(nid.as_u64() + 1), me);
-                        let old_kept = truth.iter().all(|x| d2.contains(x));
+                        let old_kept = truth.iter().filter(|x| !x.starts_with('A')).all(|x| d2.contains(x));
                         if !old_kept {
                             v("save+open", "id-collision-after-reopen", format!("create_node on the reopened copy returned {nid:?}; {}", diff(&truth, &d2)));
                         }
                         if let (Some(x), Some(y)) = (first_live_node(&copy, mn + 2), last_live_node(&copy, mn + 2)) {
                             let eid = copy.create_edge(x, y, "FRESH");
                             let d3 = dump(&copy, mn + 2, me.max(eid.as_u64() + 1));
-                            if !truth.iter().all(|x| d3.contains(x)) {
+                            if !truth.iter().filter(|x| !x.starts_with('A')).all(|x| d3.contains(x)) {
                                 v("save+open", "id-collision-after-reopen", format!("create_edge on the reopened copy returned {eid:?}; {}", diff(&truth, &d3)));
                             }
                         }
@@ -306,7 +313,7 @@ fn check_history(hist: &[usize], scratch: &std::path::Path, idx: usize, disk: bo
                 Ok(Ok(copy)) => {
                     let d = dump(&copy, mn + 2, me + 2);
                     // the directory now also holds the FRESH entities created above; the original ones must all be there
-                    if !truth.iter().all(|x| d.contains(x)) {
+                    if !truth.iter().filter(|x| !x.starts_with('A')).all(|x| d.contains(x)) {
                         v("open_in_memory", kind_of(&truth, &d), diff(&truth, &d));
                     }
                 }
